@@ -220,6 +220,43 @@ def run(ctx):
                                     {"lead_of_one": [n, c], "shape": list(shape)}, cls="C15-common-not-most-frequent")
     ctx.hit("lead_of_one_cell", nlead)
     ctx.exhaustive.append("shift_common() with the stored common value leading a greater key by one cell: every size 3..%d, every count" % top)
+    # two-axis indexes in which one column holds NO cell of the stored common value (and another one does): after the library
+    # re-encodes them (shift_common(), append, filtered) the result must EQUAL the index built directly from the same array
+    import gen_cube as G
+    for rep in range(ctx.n(18)):
+        N, cols = ctx.rng.choice([3, 5, 8]), ctx.rng.choice([2, 3])
+        a = np.array(ctx.rng.choices([1, 1, 1, 2, 0], k=N * cols), dtype=np.int64).reshape(N, cols)
+        j = ctx.rng.randrange(cols)
+        a[:, j] = np.where(a[:, j] == 0, 2, a[:, j])
+        a[ctx.rng.randrange(N), (j + 1) % cols] = 0
+        a[:, j][0] = 1
+        for via in ("shift_common", "append", "filtered"):
+            desc = {"column_without_old_common": a.tolist(), "column": j, "via": via}
+            ctx.case(desc, nontrivial=True)
+            ctx.hit("column_without_old_common:" + via)
+            try:
+                ix = iindex.from_array(a, common=0)
+                if via == "shift_common":
+                    ix.shift_common()
+                    res, arr = ix, a
+                elif via == "append":
+                    ix.append(iindex.from_array(a[:1], common=0))
+                    res, arr = ix, np.concatenate([a, a[:1]])
+                else:
+                    mask = np.ones(N, dtype=bool)
+                    mask[N - 1] = False
+                    res, arr = ix.filtered(mask, N - 1), a[mask]
+                twin = G.make_index(arr, int(res.common))
+                e1, e2, n1 = (res == twin), (twin == res), (res != twin)
+            except Exception as e:
+                ctx.oracle_fail("%s raised %s: %s" % (via, type(e).__name__, str(e)[:80]), desc, cls="C15-raises")
+                continue
+            if not np.array_equal(I.dense_of(res), arr):
+                continue            # C06's business
+            if e1 is not True or e2 is not True or n1 is not False:
+                ctx.oracle_fail("after %s the index (common %s, keys %s) and the index built directly from the same array (keys %s) agree "
+                                "on shape, common value and dense content but a == b is %s, b == a is %s, a != b is %s" % (
+                                    via, res.common, sorted(dict.keys(res)), sorted(dict.keys(twin)), e1, e2, n1), desc, cls="C15-eq-wrong")
     # equality across histories
     for _ in range(ctx.n(120)):
         steps = hist.run_history(ctx.rng, ctx.rng.randrange(0, 6), ndim=ctx.rng.choice([1, 2]),
@@ -246,6 +283,23 @@ def run(ctx):
 def replay(ctx, rep):
     core.load_catii()
     c = rep["case"]
+    if "column_without_old_common" in c:
+        from catii import iindex
+        import gen_cube as G
+        a = np.array(c["column_without_old_common"], dtype=np.int64)
+        ix = iindex.from_array(a, common=0)
+        if c["via"] == "shift_common":
+            ix.shift_common()
+            res, arr = ix, a
+        elif c["via"] == "append":
+            ix.append(iindex.from_array(a[:1], common=0))
+            res, arr = ix, np.concatenate([a, a[:1]])
+        else:
+            mask = np.ones(len(a), dtype=bool)
+            mask[len(a) - 1] = False
+            res, arr = ix.filtered(mask, len(a) - 1), a[mask]
+        twin = G.make_index(arr, int(res.common))
+        return (res == twin) is True and (twin == res) is True and (res != twin) is False
     if "lead_of_one" in c:
         from catii import iindex
         n, cnt = c["lead_of_one"]
